@@ -28,10 +28,10 @@ META = {
     'level_note': ('Trusted: Coq kernel + vm_compute; the hand-written model; the correspondence harness. Per-field leaf '
                    'conversion is a Section variable (conv); key spelling is out of scope (keys are the field names; C08/C10). '
                    'Python dict/dataclasses semantics are modelled, exercised by the correspondence, not proved.'),
-    'rule': ('classes: random trees of depth <= 2 with 1-5 fields per class (required first, then default / default_factory, '
+    'rule': ('classes: random trees of depth <= 2 with 1-5 fields per class, 3-22 key positions (required first, then default / default_factory, '
              'init=False anywhere; kinds leaf int/str/List[int], nested dataclass, List[dataclass] with 0-2 elements, Optional nested '
              'default None, nested default_factory); documents: the complete document and every subset of its key positions when '
-             '<= 10 positions (exhaustive), else 150 (quick) / 1500 (thorough) random subsets, deduplicated by resulting document; '
+             '<= 10 positions (exhaustive), else 200 (quick) / 1500 (thorough) random subsets, deduplicated by resulting document; '
              'both engines.  Non-trivial = at least one key deleted; distinct = distinct (class, engine, document).'),
     'trusted_base': ['model coq/model/FieldsMissing.v transcribes loaders.py cls_fromdict tail, errors.py MissingFields.__init__, '
                      'v1/loaders.py field loop + check_and_raise_missing_fields and dataclasses.__init__ (validated by correspondence)'],
@@ -320,8 +320,8 @@ def impl_show(res):
 def build_cases(ctx):
     r = ctx.sub_rng('classes')
     quick = ctx.tier == 'quick'
-    n_small, n_big = (14, 4) if quick else (90, 30)
-    n_rand = 150 if quick else 1500
+    n_small, n_big = (40, 10) if quick else (250, 60)
+    n_rand = 200 if quick else 1500
     counter = [0]
     classes = []
     tries = 0
@@ -334,7 +334,7 @@ def build_cases(ctx):
             continue
         doc = gen_complete(r, spec)
         pos = positions(spec, doc)
-        if len(pos) > 22:
+        if len(pos) > 22 or len(pos) < 3:
             continue
         exhaustive = len(pos) <= 10
         if exhaustive and sum(1 for c in classes if c['exhaustive']) >= n_small:
